@@ -105,12 +105,12 @@ def smStep (s : Sm) (ev : String) : Option Sm :=
                  else if containsAll s.st.committed ids then some s.st.committed else none
       reg.map fun reg =>
         let r : Running := { sources := ids, epoch := s.st.epoch,
-                             merged := mergeEntries s.st.queue (findSources reg ids) target newId }
+                             merged := mergeEntriesG s.st.queue (findSources reg ids) target newId }
         { s with running := (idx, r) :: s.running }
     | _, _, _, _ => none
   | ["end", idx] =>
     match idx.toNat? with
-    | some idx => (s.running.lookup idx).map fun r => { s with st := endMerge s.st r }
+    | some idx => (s.running.lookup idx).map fun r => { s with st := endMergeG s.st r }
     | none => none
   | ["endnr", idx] =>
     match idx.toNat? with
@@ -140,7 +140,7 @@ def parseEv (s : Sys) (tok : String) : Option Ev :=
   | _ => none
 
 def traceRun (toks : List String) : Option (Sys × Abs) :=
-  toks.foldlM (fun (p : Sys × Abs) tok => (parseEv p.1 tok).map fun ev => (p.1.step ev, p.2.step ev))
+  toks.foldlM (fun (p : Sys × Abs) tok => (parseEv p.1 tok).map fun ev => (p.1.stepG ev, p.2.step ev))
     (Sys.init, Abs.init)
 
 def handle : List String → String
